@@ -39,7 +39,8 @@ ASSUMPTIONS = [
 ]
 MIN_NONTRIVIAL = {'quick': 15000, 'thorough': 300000}
 REQUIRED_MONITORS = ['boundary:Tract', 'fixed-point', 'unparsed-pp_desc',
-                     'contract:scrub_aliquots', 'bare-quarter', 'context']
+                     'contract:scrub_aliquots', 'bare-quarter', 'context',
+                     'bare-quarter:PLSSDesc']
 EXHAUSTIVE_SUBSPACES = {
     'thorough': ["all 64 two-component chains x every spelling pair x every "
                  "applicable joiner (default config)"],
@@ -235,6 +236,28 @@ def check_bare(text, exp_plain, exp_clean, ctx, rep, pytrs):
                         f"{text!r} config {cfg!r}: preprocess(clean_qq={kw}) "
                         f"gives {pp!r} but parse(clean_qq={kw}) committed "
                         f"{t.pp_desc!r}", dedup=f"pp|{cfg}|{kw}")
+            if kw is None:
+                # the same through a description: the tract of a PLSSDesc
+                # configured likewise reads the bare quarter the same way
+                ctx.hit('bare-quarter:PLSSDesc')
+                d = pytrs.PLSSDesc(
+                    f"T154N-R97W Sec 14: {text}",
+                    config=','.join(filter(None, [cfg, 'parse_qq'])))
+                got = [a for t_ in d.tracts for a in t_.aliquots_whole]
+                if len(d.tracts) == 1 and got != exp:
+                    ctx.violation(
+                        'bare-quarter', case,
+                        f"PLSSDesc('T154N-R97W Sec 14: {text}', config "
+                        f"{cfg!r}+parse_qq): aliquots {got} (pp "
+                        f"{d.tracts[0].pp_desc!r}), expected {exp}",
+                        dedup=f"plss|{cfg}|{bool(exp)}")
+                d.parse_tracts()
+                got = [a for t_ in d.tracts for a in t_.aliquots_whole]
+                if len(d.tracts) == 1 and got != exp:
+                    ctx.violation(
+                        'bare-quarter', case,
+                        f"... and after parse_tracts(): aliquots {got}, "
+                        f"expected {exp}", dedup=f"plss-pt|{cfg}|{bool(exp)}")
             if t.aliquots_whole != exp:
                 ctx.violation(
                     'bare-quarter', case,
